@@ -219,20 +219,17 @@ func c04CheckTopN(id string, o *c04Order, in []*c04Row, k int, got []sql.Row) {
 		used[t] = true
 		tags = append(tags, t)
 	}
-	sorted := true
+	// one assertion per pair of rows: small solver queries
 	for j := 0; j+1 < len(tags); j++ {
-		sorted = nd.And(sorted, c04Before(o, in[tags[j]], tags[j], in[tags[j+1]], tags[j+1]))
+		nd.Assert(o.id(id+".sorted-ties-in-input-order"), c04Before(o, in[tags[j]], tags[j], in[tags[j+1]], tags[j+1]))
 	}
-	nd.Assert(o.id(id+".sorted-ties-in-input-order"), sorted)
 	if len(tags) > 0 {
 		last := tags[len(tags)-1]
-		none := true
 		for t := 0; t < n; t++ {
 			if !used[t] {
-				none = nd.And(none, c04Before(o, in[last], last, in[t], t))
+				nd.Assert(o.id(id+".no-omitted-row-before-last-returned"), c04Before(o, in[last], last, in[t], t))
 			}
 		}
-		nd.Assert(o.id(id+".no-omitted-row-before-last-returned"), none)
 	}
 }
 
